@@ -79,12 +79,14 @@ def strategy(tier):
 
 
 EXHAUSTIVE_NOTE = {
-    "quick": "all unweighted ballots {PERMIT,BLOCK,UNKNOWN,DEFER,exception}^n for n=1..4 x (7 strategies + emergency), default thresholds: 780*8 = 6240 cases, each with all single-voter metamorphic variants",
-    "thorough": "same for n=1..6: 19530*8 = 156240 cases, each with all single-voter metamorphic variants",
+    "quick": "all unweighted ballots {PERMIT,BLOCK,UNKNOWN,DEFER,exception}^n for n=1..4 x (7 strategies + emergency), default thresholds: 780*8 = 6240 cases, each with all single-voter metamorphic variants; plus permit/block-only ballots of 5..9 voters by permit count x 7 strategies x 4 thresholds + emergency (1160 cases)",
+    "thorough": "same for n=1..6: 19530*8 = 156240 cases, each with all single-voter metamorphic variants; plus the same 1160 two-way ballots of 5..9 voters",
 }
 
 
 def enumerate_cases(tier):
+    for case in _two_way_ballots():
+        yield case
     nmax = 6 if tier == "thorough" else 4
     kinds = ["PERMIT", "BLOCK", "UNKNOWN", "DEFER", "RAISE"]
     for n in range(1, nmax + 1):
@@ -99,6 +101,18 @@ def enumerate_cases(tier):
                     yield {"emergency": True, "strategy": 6, "threshold": 0.3, "min_voters": 1, "voters": voters, "hist": h}
                     yield {"emergency": False, "strategy": 6, "threshold": None, "min_voters": 1, "voters": voters, "hist": h}
                     yield {"emergency": False, "strategy": 0, "threshold": None, "min_voters": 1, "voters": voters, "hist": dict(h, detour=6, extra=True)}
+
+
+def _two_way_ballots():
+    """permit/block-only ballots of 5..9 voters by permit count (order matters only through S9): the ratios between the strategies' thresholds
+    (1/2 < 3/5 < 2/3 < 5/7 < 3/4 ...) first appear here"""
+    for n in range(5, 10):
+        for p in range(0, n + 1):
+            voters = [["PERMIT", 1, 1]] * p + [["BLOCK", 1, 1]] * (n - p)
+            for s in range(7):
+                for thr in (None, 0.5, 0.666, 0.75):
+                    yield {"emergency": False, "strategy": s, "threshold": thr, "min_voters": 1, "voters": [list(v) for v in voters]}
+            yield {"emergency": True, "strategy": 6, "threshold": 0.3, "min_voters": 1, "voters": [list(v) for v in voters]}
 
 
 class _Stub:
